@@ -24,8 +24,9 @@ TRUSTED = [
     "ag_running_async, ag_closed, PEP 479/525): modelled, not verified; validated against the interpreter by "
     "its own correspondence stream in this run",
     "the oracle is CPython itself: the native async generator compiled from the same AST",
-    "asyncio Task stepping and asyncgen hooks (firstiter/finalizer) are outside the model; Task-driven runs are "
-    "compared native-vs-GOI and against the raw-driven run",
+    "asyncio Task stepping is outside the model; Task-driven runs are compared native-vs-GOI and against the raw run",
+    "asyncgen hooks: CPython's async_gen_init_hooks/_PyGen_Finalize are modelled (nativeHookCall/nativeHookGC), "
+    "validated by the hook stream of this run",
 ]
 ASSUMPTIONS = [
     "StopIteration/StopAsyncIteration are not thrown in (excluded by the property)",
@@ -506,6 +507,10 @@ def _deep_yield(prog):
 
 
 def normalise(case):
+    if "hook_prog" in case:
+        c2 = normalise({"prog": case["hook_prog"], "script": []})
+        return {"hook_prog": c2["prog"], "ops": [tuple(o) for o in case["ops"]], "cfg": list(case["cfg"])}
+
     def stmt(s):
         s = list(s)
         k = s[0]
@@ -626,6 +631,212 @@ def explore(ctx, cases, label=""):
             continue
 
 
+# ---------------------------------------------------------------------------------------
+# asyncgen hooks: sys.set_asyncgen_hooks(firstiter, finalizer) x start / abandon / garbage-collect
+
+HOOK_CFGS = [(0, 0), (1, 0), (0, 1), (1, 1)]
+HOOK_FIXED = [
+    [("L", 1), ("TRY", [("Y", 1), ("Y", 2)], [], [("S", 170), ("L", 2)])],                # awaiting finally
+    [("L", 1), ("TRY", [("Y", 1), ("S", 100), ("Y", 2)], [("GE", [("L", 3), ("R", "GE")])], [("L", 2)])],
+    [("Y", 1), ("Y", 2)],
+    [("TRY", [("Y", 1)], [("GE", [("Y", 9)])], [])],                                       # ignores GeneratorExit
+]
+
+
+def gen_hook_case(rng):
+    prog = gen_block(rng, 0, [rng.randint(3, 9)])
+    if not mp.has_yield(prog) or rng.random() < 0.3:
+        prog = [("L", 1), ("TRY", [("Y", 11)] + prog, [], [("S", 170), ("L", 2)])]   # clean-up that awaits
+    ops = []
+    r = rng.random()
+    if r < 0.15:
+        ops.append(("as", rng.choice([1, 2])))            # refused first send: the generator stays unstarted
+    for _ in range(rng.choice([0, 1, 1, 2, 3])):
+        ops.append(("as", 0))
+    r = rng.random()
+    if r < 0.15:
+        ops.append(("ac",))
+    elif r < 0.30:
+        ops.append(("at", rng.choice(["E1", "E2", "GE"])))
+    return {"hook_prog": prog, "ops": ops, "cfg": list(rng.choice(HOOK_CFGS))}
+
+
+def run_hook_side(case, kind):
+    """Returns (lines, outs, dets, gc_line, cleanup) — or None when a consumer stays suspended (abandoning a
+    generator *inside* a consumer is not comparable: CPython 3.12.1 leaves ag_running set, notes/C06.md)."""
+    fi_on, fz_on = case["cfg"]
+    side = Side(case["hook_prog"], kind)
+    ev = []
+    cleanup = []
+
+    def firstiter(ag):
+        ev.append("fi" if ag is side.gen or side.gen is None else "fi!other-object")
+
+    def finalizer(ag):
+        ev.append("fz")
+        # what an event loop does (asyncio schedules aclose()), synchronously
+        aw = ag.aclose()
+        seen = []
+        try:
+            for _ in range(20):
+                seen.append(mp.cv(aw.send(None)))
+            seen.append("...")
+        except StopIteration as e:
+            seen.append(f"ret {mp.cv(e.value)}")
+        except BaseException as e:  # noqa: BLE001
+            seen.append(f"exc {mp.canon_exc(e)}[{rt_kind(e)}]")
+        cleanup.append(seen)
+
+    old = sys.get_asyncgen_hooks()
+    sys.set_asyncgen_hooks(firstiter=firstiter if fi_on else None, finalizer=finalizer if fz_on else None)
+    lines, outs, dets = [], [], []
+    try:
+        for op in case["ops"]:
+            n0 = len(ev)
+            o, d = side.call(op)
+            hk = " ; hk=" + (",".join(ev[n0:]) or "-")
+            lines.append("call " + mp.op_tokens(op))
+            outs.append(o + hk)
+            dets.append(d + hk)
+            k = 0
+            while side.pending is not None and k < 8:
+                o, d = side.resume("send", 0)
+                lines.append("send 0")
+                outs.append(o)
+                dets.append(d)
+                k += 1
+            if side.pending is not None:
+                return None
+            if "ignored GeneratorExit" in d:
+                # the comparison stops here (ag_closed is set on a still suspended native generator)
+                return lines, outs, dets, None, None
+        log_before = list(side.log)
+        n0 = len(ev)
+        log = side.log
+        side.keep.clear()
+        side.pending = None
+        side.last_exc = None          # a caught exception's traceback keeps the awaitable and the generator alive
+        side.given = None
+        side.frame = None
+        if kind == "g":
+            side.coro = None
+            side.g = None
+        side.gen = None
+        gc.collect()
+        gc_line = "hk=" + (",".join(ev[n0:]) or "-")
+        return lines, outs, dets, gc_line, {"aclose": cleanup, "log_after_gc": list(log)[len(log_before):]}
+    finally:
+        sys.set_asyncgen_hooks(*old)
+
+
+def hk_kind(nh, gh):
+    if ("fz" in nh) != ("fz" in gh):
+        return "finalizer-missing" if "fz" in nh else "finalizer-extra"
+    return "firstiter-missing" if nh.count("fi") > gh.count("fi") else "firstiter-extra"
+
+
+def explore_hooks(ctx, cases, label=""):
+    all_lines, spans, recs = [], [], []
+    for case in cases:
+        n = run_hook_side(case, "n")
+        g = run_hook_side(case, "g")
+        tags = {"hooks-" + {(0, 0): "none", (1, 0): "firstiter-only", (0, 1): "finalizer-only", (1, 1): "both"}[tuple(case["cfg"])]}
+        if n is None or g is None:
+            ctx.case(json.dumps(case, sort_keys=True), ["hooks-abandoned-inside-consumer-skipped"])
+            continue
+        if n[3] is None:
+            tags.add("hooks-stopped-at-ignored-GeneratorExit")
+        elif "fz" in n[3]:
+            tags.add("hooks-finalizer-called-at-gc")
+            if n[4]["log_after_gc"]:
+                tags.add("hooks-cleanup-ran-through-finalizer")
+        if any("hk=fi" in o for o in n[1]):
+            tags.add("hooks-firstiter-called")
+        if n[0] == []:
+            tags.add("hooks-never-iterated")
+        ctx.case(json.dumps(case, sort_keys=True), sorted(tags))
+        bad = None
+        for ln, nd, gd in zip(n[0], n[2], g[2]):
+            if strip_st(gd) != nd:
+                a, b = nd.split(" ; hk="), strip_st(gd).split(" ; hk=")
+                if a[0] != b[0]:
+                    bad = ("consumer-call", nd, strip_st(gd))
+                else:
+                    bad = (hk_kind(a[1], b[1]), nd, strip_st(gd))
+                break
+        if bad is None and n[3] != g[3]:
+            bad = (hk_kind(n[3], g[3]), n[3], g[3])
+        if bad is None and n[4] != g[4]:
+            bad = ("cleanup", n[4], g[4])
+        if bad is not None:
+            seen = ctx.extra.setdefault("_shrunk", {})
+            k = "hooks:" + bad[0]
+            seen[k] = seen.get(k, 0) + 1
+            if seen[k] <= 3:
+                small = shrink_hook_case(case, bad[0])
+                ctx.violation(f"goi-vs-native:hooks:{bad[0]}",
+                              f"{label}asyncgen hooks {dict(zip(('firstiter', 'finalizer'), case['cfg']))}: the "
+                              f"GeneratorObjectIterator and the native async generator differ ({bad[0]})",
+                              small, expected={"native": bad[1]}, observed={"goi": bad[2]},
+                              theorem="Asynkit.C06.goi_hooks_call_eq / goi_hooks_gc_eq")
+        pre = ["reset", "prog " + mp.tokens(case["hook_prog"]), "mk", f"hooks {case['cfg'][0]} {case['cfg'][1]}"]
+        body, real = [], []
+        for ln, no, go in zip(n[0], n[1], g[1]):
+            body += ["n " + ln, "g " + ln]
+            real += [no, go]
+        if n[3] is not None and g[3] is not None:
+            body += ["n gc", "g gc"]
+            real += [n[3], g[3]]
+        spans.append((len(all_lines) + len(pre), len(body)))
+        all_lines.extend(pre + body)
+        recs.append((case, body, real))
+    if not ctx.lean_ok or not recs:
+        return
+    mouts = ctx.lean_driver("AsyncGen", all_lines)
+    if len(mouts) != len(all_lines):
+        raise core.InfraError(f"driver returned {len(mouts)} lines for {len(all_lines)}")
+    reported = 0
+    for (start, cnt), (case, body, real) in zip(spans, recs):
+        for i, (nm, r, m) in enumerate(zip(body, real, mouts[start:start + cnt])):
+            if len(n_fields := r.split(" ; ")) >= 3 and n_fields[-1].startswith("hk=") and nm[0] == "g":
+                # g lines: the model prints `… ; st=N ; hk=…`
+                pass
+            if r != m:
+                if reported < 3:
+                    which = "CPython async generator vs nativeAG/hook model" if nm.startswith("n ") else \
+                        "GeneratorObjectIterator vs goi/hook model"
+                    ctx.disagreement(f"{label}{which}: `{nm}` answered differently", {**case, "upto": i},
+                                     expected=m, observed=r, theorem="correspondence Drivers/AsyncGen (hooks)")
+                reported += 1
+                break
+        ctx.traces += 2
+
+
+def shrink_hook_case(case, field):
+    def fails(c):
+        try:
+            n, g = run_hook_side(c, "n"), run_hook_side(c, "g")
+        except Exception:  # noqa: BLE001
+            return False
+        if n is None or g is None:
+            return False
+        if field.startswith("firstiter") or field == "consumer-call":
+            return any(strip_st(gd) != nd for nd, gd in zip(n[2], g[2]))
+        if field.startswith("finalizer"):
+            return n[3] is not None and g[3] is not None and n[3] != g[3] and hk_kind(n[3], g[3]) == field
+        return n[3] == g[3] and n[4] != g[4]
+    cur = dict(case)
+    if len(cur["ops"]) >= 2:
+        ops = core.ddmin(cur["ops"], lambda o: fails({**cur, "ops": o}))
+        if fails({**cur, "ops": ops}):
+            cur["ops"] = ops
+    if len(cur["hook_prog"]) >= 2:
+        p = core.ddmin(cur["hook_prog"], lambda q: fails({**cur, "hook_prog": q}))
+        if fails({**cur, "hook_prog": p}):
+            cur["hook_prog"] = p
+    return cur
+
+
 def corpus_cases():
     d = core.ROOT / "corpus" / PROP
     out = []
@@ -644,8 +855,19 @@ def run(ctx):
 
 
 def _run(ctx, rng):
-    explore(ctx, corpus_cases(), label="corpus: ")
-    n = 100000 if ctx.thorough() else 12000
+    cc = corpus_cases()
+    explore(ctx, [c for c in cc if "hook_prog" not in c], label="corpus: ")
+    explore_hooks(ctx, [c for c in cc if "hook_prog" in c], label="corpus: ")
+    # deterministic hook stream: fixed bodies x the four hook configurations, then random ones
+    fixed = []
+    for prog in HOOK_FIXED:
+        for ops in ([], [("as", 0)], [("as", 0), ("as", 0)], [("as", 0), ("as", 0), ("as", 0), ("as", 0)],
+                    [("as", 0), ("ac",)], [("as", 0), ("at", "E1")], [("as", 2), ("as", 0)], [("at", "E2")], [("ac",)]):
+            for cfg in HOOK_CFGS:
+                fixed.append({"hook_prog": prog, "ops": ops, "cfg": list(cfg)})
+    explore_hooks(ctx, fixed, label="hooks: ")
+    explore_hooks(ctx, [gen_hook_case(rng) for _ in range(3000 if ctx.thorough() else 400)], label="hooks: ")
+    n = 100000 if ctx.thorough() else 10000
     batch = 2500
     done = 0
     while done < n:
@@ -658,5 +880,9 @@ def _run(ctx, rng):
 
 
 def replay(ctx, data):
+    if "hook_prog" in data["case"]:
+        explore_hooks(ctx, [normalise(data["case"])], label="replay: ")
+        ctx.extra.pop("_shrunk", None)
+        return
     explore(ctx, [normalise(data["case"])], label="replay: ")
     ctx.extra.pop("_shrunk", None)
